@@ -1,7 +1,211 @@
 import KitModel.Go.Prelude
-/-! Driver for property C10: `kitdrv C10` reads op lines on stdin, one answer line per input line. -/
+import KitModel.Batcher
+import Std.Data.HashSet
+/-!
+Driver for property C10: `kitdrv C10` — trace inclusion by state-set simulation of the batcher LTS
+(`KitModel/Batcher.lean` = C06 processor LTS composed with subscribers, `execute`, `Close`).
+
+Input lines (one answer line each; `ok n=<size of the τ-closed state set>` or `reject …`):
+* `reset fixed=0|1 cap=<n> interval=<ns>`   start a new trace from the initial state
+* `batch key=<k> val=<v>`                   `Batch` called (enqueue at now+interval; a no-op is also
+                                             accepted once `Close` has been called)
+* `adv to=<ns>`                             the clock moves
+* `scall` / `sret`                          `Subscribe(ctx, ch)` called / returned
+* `cancel sub=<i>`                          subscriber `i`'s context is cancelled
+* `recv sub=<i> v=<v>`                      the reader of subscriber `i` received `v`
+* `chclosed sub=<i>`                        the reader of subscriber `i` saw its channel closed
+* `ccall` / `cret`                          `Close` called / returned
+* `xsend sub=<i> v=<v>`                     `execute` passed `batcher.execute.beforeSend` for subscriber `i` (lock held)
+* `fexit sub=<i>`                           forwarder `i` passed `batcher.forwarder.exit` (about to take the lock)
+* `park p=send sub=<i> v=<v>` / `unpark p=send`   `execute` is held at `batcher.execute.beforeSend` (lock held,
+                                             next subscriber `i`); while held the closure does not move it
+* `park p=exit sub=<i>` / `unpark p=exit sub=<i>`  forwarder `i` is held at `batcher.forwarder.exit`
+* `quiet`                                   the implementation is quiescent: some compatible state must have
+                                             no enabled hidden step
+* `stuck`                                   → `stuck n=<k> of=<size>`: states of the current set with a pending
+                                             call/delivery and no enabled internal step (never rejects)
+-/
 namespace Driver.C10
+open Kit Kit.Queue Kit.Processor Kit.Batcher
+
+abbrev SSet := Std.HashSet Batcher.State
+
+structure D where
+  cfg : Batcher.Cfg := ⟨true, 50, 10000000⟩
+  cur : SSet := {}
+  frozenSend : Bool := false
+  frozenExit : List Nat := []
+  dead : Bool := true
+
+def dummy : It := ⟨0, 0, 0, 0⟩
+
+/-- Remove what cannot influence any later step: the ghost fields; the *contents* of the buffer of
+a forwarder that has left its loop (only `fwdTake`, enabled in `idle`, reads them; `send` reads the
+length while the subscriber is still in `eventChs`); everything about a subscriber that is `done`. -/
+def stripSub (u : Sub) : Sub :=
+  match u.pc with
+  | .done => { buf := [], pc := .done, delivered := [], ctxDone := true, exitClosed := true, joinedAt := 0, missed := false }
+  | .exiting | .wantLock => { u with buf := u.buf.map (fun _ => dummy), delivered := [], joinedAt := 0, missed := false }
+  | _ => { u with delivered := [], joinedAt := 0, missed := false }
+
+def strip (s : Batcher.State) : Batcher.State :=
+  { s with p := { s.p with log := [] }, out := [], calls := [], subs := s.subs.map stripSub }
+
+def hiddenOK (d : D) : Batcher.Label → Bool
+  | .closeReturn => false
+  | .send | .skipExit | .skipClose | .skipGone | .proc .cbReturn => !d.frozenSend
+  | .fwdRemove i => !d.frozenExit.contains i
+  | _ => true
+
+def hidden (d : D) (s : Batcher.State) : List Batcher.Label :=
+  (Batcher.taus d.cfg s).filter (hiddenOK d)
+
+def closureLimit : Nat := 40000
+
+partial def closure (d : D) (todo : List Batcher.State) (seen : SSet) : SSet :=
+  match todo with
+  | [] => seen
+  | s :: rest =>
+    if seen.size > closureLimit then seen else
+    let succs := ((hidden d s).filterMap (Batcher.step d.cfg s)).map strip
+    let (todo', seen') := succs.foldl (fun (acc : List Batcher.State × SSet) s' =>
+      if acc.2.contains s' then acc else (s' :: acc.1, acc.2.insert s')) (rest, seen)
+    closure d todo' seen'
+
+def closeSet (d : D) (xs : List Batcher.State) : SSet :=
+  let seen : SSet := xs.foldl (fun acc s => acc.insert (strip s)) {}
+  closure d seen.toList seen
+
+def fpcName : FPc → String
+  | .idle => "idle" | .holding x => s!"holding({x.val})" | .exiting => "exiting" | .wantLock => "wantLock" | .done => "done"
+
+def showSub (u : Sub) : String :=
+  s!"[buf:{showNats (u.buf.map (·.val))},pc:{fpcName u.pc},ctx:{u.ctxDone},exit:{u.exitClosed}]"
+
+def epcName : EPc → String
+  | .idle => "idle" | .waiting r => s!"waiting({r.val})" | .sending r i => s!"sending({r.val})@{i}"
+
+def bcName : CPc → String
+  | .idle => "idle" | .inQueue => "inQueue" | .waiting => "waiting" | .returned => "returned"
+
+def pcName : Pc Nat Nat → String
+  | .absent => "absent" | .top => "top" | .peeked r => s!"peeked({r.val})" | .polled r => s!"polled({r.val})"
+  | .armed r => s!"armed({r.val})" | .firing r => s!"firing({r.val})" | .popped r => s!"popped({r.val})"
+  | .running r => s!"running({r.val})" | .exiting => "exiting"
+
+def cpcName : ClosePc → String
+  | .idle => "idle" | .casDone => "casDone" | .chClosed => "chClosed" | .tokenTaken => "tokenTaken" | .returned => "returned"
+
+def showState (s : Batcher.State) : String :=
+  let q := ",".intercalate (s.p.q.map fun r => s!"k{r.key}={r.val}@{r.time}")
+  s!"q:{q};now:{s.p.now};pc:{pcName s.p.pc};qclose:{cpcName s.p.cpc};reset:{s.p.reset};epc:{epcName s.epc};closed:{s.closed};bc:{bcName s.bc};waitS:{s.waitS};retS:{s.retS};subs:{"".intercalate (s.subs.map showSub)}"
+
+/-- Successors of one state under one observable event; `none` = malformed line. -/
+def onEvent (d : D) (l : Line) (s : Batcher.State) : Option (List Batcher.State) :=
+  let cfg := d.cfg
+  match l.op with
+  | "batch" => do
+    let k ← l.nat? "key"; let v ← l.nat? "val"
+    let t := s.p.now + cfg.interval
+    let enq := [true, false].filterMap fun first => Batcher.step cfg s (.proc (.enqueue k t v first))
+    return if s.p.stopped then s :: enq else enq
+  | "adv" => do
+    let t ← l.int? "to"
+    return (Batcher.step cfg s (.proc (.advance t))).toList
+  | "scall" => some (Batcher.step cfg s .subCall).toList
+  | "sret" => some (Batcher.step cfg s .subReturn).toList
+  | "cancel" => do
+    let i ← l.nat? "sub"
+    return (Batcher.step cfg s (.cancel i)).toList
+  | "recv" => do
+    let i ← l.nat? "sub"; let v ← l.nat? "v"
+    match s.subs[i]? with
+    | some u =>
+      match u.pc with
+      | .holding x => if x.val == v then return (Batcher.step cfg s (.fwdDeliver i)).toList else return []
+      | _ => return []
+    | none => return []
+  | "chclosed" => do
+    let i ← l.nat? "sub"
+    match s.subs[i]? with
+    | some u => return if u.pc == .done then [s] else []
+    | none => return []
+  | "ccall" => some (Batcher.step cfg s .closeCall).toList
+  | "cret" => some (Batcher.step cfg s .closeReturn).toList
+  | "park" => do
+    let p ← l.get? "p"; let i ← l.nat? "sub"
+    match p with
+    | "send" =>
+      let v ← l.nat? "v"
+      match s.epc, s.subs[i]? with
+      | .sending r j, some u => return if j == i && u.inList && r.val == v then [s] else []
+      | _, _ => return []
+    | "exit" =>
+      match s.subs[i]? with
+      | some u => return if u.pc == .wantLock then [s] else []
+      | none => return []
+    | _ => none
+  | "xsend" => do
+    let i ← l.nat? "sub"; let v ← l.nat? "v"
+    match s.epc, s.subs[i]? with
+    | .sending r j, some u => return if j == i && u.inList && r.val == v then [s] else []
+    | _, _ => return []
+  | "fexit" => do
+    let i ← l.nat? "sub"
+    match s.subs[i]? with
+    | some u => return if u.pc == .wantLock then [s] else []
+    | none => return []
+  | "unpark" => some [s]
+  | "quiet" => some (if (hidden d s).isEmpty then [s] else [])
+  | _ => none
+
+def pendingWork (s : Batcher.State) : Bool :=
+  s.epc != .idle || s.waitS > 0 || (s.bc != .idle && s.bc != .returned) ||
+  s.p.q.any (fun r => r.time ≤ s.p.now)
+
+def handle (d : D) (raw : String) : D × String :=
+  let l := parseLine raw
+  if l.op == "" then (d, "ok") else
+  if l.op == "reset" then
+    let cfg : Batcher.Cfg :=
+      ⟨l.nat? "fixed" != some 0, (l.nat? "cap").getD 50, (l.int? "interval").getD 10000000⟩
+    let d' : D := { cfg := cfg, cur := {}, frozenSend := false, frozenExit := [], dead := false }
+    let cur := closeSet d' [Batcher.init]
+    ({ d' with cur := cur }, s!"ok n={cur.size}")
+  else if d.dead then (d, "reject at=earlier")
+  else if l.op == "dump" then
+    (d, " || ".intercalate ((d.cur.toList.take ((l.nat? "n").getD 10)).map showState))
+  else if l.op == "stuck" then
+    let all := d.cur.toList
+    let k := (all.filter fun s => pendingWork s && ((Batcher.taus d.cfg s).filter (hiddenOK { d with frozenSend := false, frozenExit := [] })).isEmpty
+                && (Batcher.step d.cfg s .closeReturn).isNone).length
+    (d, s!"stuck n={k} of={all.length}")
+  else
+    let all := d.cur.toList
+    let rs := all.map (onEvent d l)
+    if rs.any Option.isNone then
+      ({ d with dead := true }, s!"reject malformed line: {raw.trimAscii.toString}")
+    else
+      let d1 : D :=
+        match l.op, l.get? "p", l.nat? "sub" with
+        | "park", some "send", _ => { d with frozenSend := true }
+        | "unpark", some "send", _ => { d with frozenSend := false }
+        | "park", some "exit", some i => { d with frozenExit := i :: d.frozenExit }
+        | "unpark", some "exit", some i => { d with frozenExit := d.frozenExit.filter (· != i) }
+        | _, _, _ => d
+      let nxt := closeSet d1 (rs.flatMap fun r => r.getD [])
+      if nxt.size > closureLimit then
+        ({ d1 with cur := nxt, dead := true }, s!"overflow n={nxt.size}")
+      else if nxt.size == 0 then
+        let st := match all with
+          | s :: _ => showState s
+          | [] => "-"
+        ({ d1 with cur := nxt, dead := true },
+         s!"reject at={raw.trimAscii.toString.replace " " "_"} prev={all.length} state={st.replace " " "_"}")
+      else ({ d1 with cur := nxt }, s!"ok n={nxt.size}")
+
 def main (_args : List String) : IO UInt32 := do
-  IO.eprintln "kitdrv: C10 has no model driver yet"
-  return 2
+  Kit.lineLoop handle ({} : D)
+  return 0
+
 end Driver.C10
